@@ -78,6 +78,10 @@ def system_unit():
 pub uninterp spec fn sys_a() -> int;
 pub uninterp spec fn sys_r() -> Seq<real>;
 pub uninterp spec fn FV(x: Seq<real>) -> Seq<real>;      // a general (pure) vector function for the finite-difference contract
+// res = g - B F(g) for some iterate g and some matrix B, and the update is within the tolerance
+pub open spec fn quasi_update_ok(res: Seq<real>, tol: real) -> bool {
+    exists|g: Seq<real>, b: int| #![trigger mv(mneg(b), FV(g))] res == wadd(g, mv(mneg(b), FV(g))) && wnorm(mv(mneg(b), FV(g))) <= tol
+}
 """)
     f = u.fn(RF, "newton")
     f.req("initial@.len() == S",
@@ -145,8 +149,15 @@ pub open spec fn fd_matrix(m: int, x: Seq<real>, h: real, s: int) -> bool {
         "(forall|m: int| fd_matrix(m, sl(initial), h@, S as int) ==> !nonsingular(m)) ==> res is Err",
         # a start exactly on a root is returned (the first update is zero)
         "(forall|m: int| fd_matrix(m, sl(initial), h@, S as int) ==> nonsingular(m)) && FV(sl(initial)) == wzero(S as nat) && tol@ >= 0real "
-        "==> res is Ok && res->Ok_0@ == sl(initial)")
-    s.loop(1, invariant=["n <= n_max || n == 2", "guess@.len() == S", "func_eval@.len() == S", "shift@.len() == S"], decreases="n_max - n")
+        "==> res is Ok && res->Ok_0@ == sl(initial)",
+        # an Ok result is a quasi-Newton update g - B F(g) of some iterate g (B: the current approximation of the inverse Jacobian, not
+        # constrained by this contract) whose SIZE is within the tolerance
+        "res is Ok ==> quasi_update_ok(res->Ok_0@, tol@)")
+    s.loop(1, invariant=["n <= n_max || n == 2", "guess@.len() == S", "func_eval@.len() == S", "shift@.len() == S",
+                          "forall|g: F, p: &[R]| p@.len() == S ==> #[trigger] g.requires((p,))",
+                          "forall|g: F, p: &[R], y: SV<S>| #[trigger] g.ensures((p,), y) ==> y@ == FV(sl(p)) && y@.len() == S"], decreases="n_max - n")
+    s.hint("before: #1 return Ok(guess);", "proof { axiom_wnorm(shift@); assert(quasi_update_ok(guess@, tol@)); }")
+    s.hint("before: #2 return Ok(guess);", "proof { axiom_wnorm(shift@); assert(quasi_update_ok(guess@, tol@)); }")
     s.hint("before: guess +=", """proof {
         axiom_mv_zero(minv(jac.id@), S as nat); axiom_wnorm(shift@);
         if FV(sl(initial)) == wzero(S as nat) { assert(wadd(guess@, shift@) =~= guess@); }
@@ -351,6 +362,7 @@ DECIDED = [
     "newton (systems, general callbacks F and J): an Ok result is a Newton update g + a with J(g) a = -F(g) whose SIZE |a| is within the tolerance (convergence is not declared from a change of norms)",
     "newton (systems): the callbacks being an affine system A(x-r) with constant Jacobian A: non-singular A and n_max >= 2 -> Ok(r) exactly, from ANY start (origin included); singular A -> Err (LU solve gives None); n_max == 0 -> Err; the loop is bounded by n_max (decreases n_max - n)",
     "jac_finite_diff: entry (r, c) of the result is (F(x + h e_c)_r - F(x - h e_c)_r) / (2h) for every r, c -- a subtraction, not a sum -- and x is restored",
+    "secant: an Ok result is a quasi-Newton update g - B F(g) of the current iterate (F evaluated AT that iterate) whose size is within the tolerance, at the first step and in the Broyden loop",
     "secant: a singular finite-difference Jacobian -> Err; a start exactly on a root (F(x0) = 0) with a non-singular finite-difference Jacobian is returned as Ok(x0); loop bounded by n_max",
     "newton_polynomial: an Ok result is a Newton update g - p(g)/p'(g) whose size |p(g)/p'(g)| is within the tolerance (not a difference of norms); a polynomial of degree 1 is solved exactly from any start in one update (n_max >= 2); n_max == 0 -> Err; bounded by n_max",
     "muller_polynomial (unit muller, complex instantiation): an Ok result is x2 + s where (x0, x1, x2) are the three latest iterates (consecutive ones distinct), s is the Muller step computed from them -- "
@@ -360,7 +372,7 @@ DECIDED = [
 ]
 NOT_DECIDED = [
     "convergence on NON-affine systems from a start inside the convergence region (quadratic convergence is an analytic statement about a neighbourhood; no contract over exact reals expresses 'inside the convergence region')",
-    "secant: the Broyden (Sherman-Morrison) updates inside the loop: the row-vector / outer-product operations are typed but carry no contract, so nothing about iterates after the first is decided (in particular 'affine systems are solved' for secant rests on jac_finite_diff's contract only)",
+    "secant: the Broyden (Sherman-Morrison) update of the approximate inverse Jacobian B: the row-vector / outer-product operations are typed but carry no contract, so B is unconstrained after the first step (in particular 'affine systems are solved' for secant rests on jac_finite_diff's contract and the first step only)",
     "muller_polynomial: that the iteration converges and the returned number is a root of the POLYNOMIAL to a residual bound (analytic); division by a vanishing denominator (b +- d == 0, or the new iterate "
     "coinciding with the one before last) is not excluded -- the contract then says nothing about that step (complex division is total in this unit, its value at 0 unspecified); "
     "the real instantiation N = f64 (verified at N = Complex, where initial.k.real()/imaginary() are the components). Observation, not a violation of C08: the third starting value is built from "
